@@ -27,8 +27,8 @@ pub fn run(ctx: &Ctx) -> i32 {
     let nlisted = keys.len();
     keys.push(x25519("u")); keys.push(mlkem("v", EncapsulationScheme::MLKEM512));
     if th { keys.push(mlkem("w", EncapsulationScheme::MLKEM768)); }
-    let trees = families::plain(if th { 4 } else { 3 });
-    let maxlen = if th { 3 } else { 2 };
+    let trees = families::plain(if th { 5 } else { 4 });
+    let maxlen = if th { 4 } else { 3 };
     let mut all_lists = vec![]; for l in 1..=maxlen { all_lists.extend(lists(nlisted, l)) }
     let acc = trees.par_iter().enumerate().with_max_len(1).map(|(ti, m)| {
         let mut acc = Acc::new();
@@ -64,6 +64,20 @@ pub fn run(ctx: &Ctx) -> i32 {
                         Ok(Err(_)) => if listed { acc.viol(format!("C10|decrypt_to_recipient|listed|{scheme}|refused"), "listed recipient cannot open the wrapped form", cid(&format!("wrapped/key-{}", kp.name)), json!({})) },
                     }
                 }
+            }
+        }
+        // the wrap-and-encrypt convenience pair itself, on every tree (wrapped inputs included)
+        for (k, kp) in keys.iter().enumerate().take(nlisted) {
+            acc.inc("decrypt_attempts");
+            let cid = |s: &str| format!("tree{ti}/encrypt_to_recipient/{}/{s}", kp.name);
+            match catch(|| { let enc = e.encrypt_to_recipient(&kp.pk); let dec = enc.decrypt_to_recipient(&kp.sk); (enc, dec) }) {
+                Err(p) => acc.viol(format!("C10|encrypt_to_recipient|panic|{}", p.site), p.msg.clone(), cid("roundtrip"), json!({"tree": m.show()})),
+                Ok((enc, Ok(d))) => {
+                    if bind::observe(&d) != bind::observe(&e) || !d.is_identical_to(&e) { acc.viol("C10|encrypt_to_recipient|listed|differs", "decrypt_to_recipient(encrypt_to_recipient(e)) is not identical to e", cid("roundtrip"), json!({"tree": m.show(), "got": d.format_flat()})) }
+                    if bind::dg(&enc.subject()) != crate::refmodel::sha256::sha256(&m.digest()) { acc.viol("C10|encrypt_to_recipient|subject-digest", "the encrypted subject does not carry the digest of the wrapped original", cid("digest"), json!({"tree": m.show()})) }
+                    for (o, op) in keys.iter().enumerate() { if o != k { if let Ok(Ok(_)) = catch(|| enc.decrypt_to_recipient(&op.sk)) { acc.viol("C10|encrypt_to_recipient|unlisted|decrypts", "another key opened it", cid(&format!("other-{}", op.name)), json!({})) } } }
+                }
+                Ok((_, Err(er))) => acc.viol("C10|encrypt_to_recipient|listed|refused", format!("{er}"), cid("roundtrip"), json!({"tree": m.show()})),
             }
         }
         // later add_recipient with the content key: earlier recipients still succeed, the new one too
@@ -118,7 +132,7 @@ pub fn run(ctx: &Ctx) -> i32 {
     let evals = acc.get("decrypt_attempts") + acc.get("add_recipient_cases") * keys.len() as u64 + acc.get("seal_cases");
     let cov = json!({"evaluations": evals,
         "rule": "tree x every recipient list (with repetition) up to the length bound over the listed keys x every private key (listed and never-listed) through decrypt_subject_to_recipient and the wrap form; add_recipient for every ordered pair; seal/unseal for every sender scheme x recipient scheme with right / wrong sender / wrong recipient; distinct = (tree, list, key) successful decryptions",
-        "exhaustive": true, "bounds": {"tree_weight": if th { 4 } else { 3 }, "recipient_list_length": maxlen, "keys": keys.iter().map(|k| format!("{}:{:?}", k.name, k.sk.encapsulation_scheme())).collect::<Vec<_>>()}});
+        "exhaustive": true, "bounds": {"tree_weight": if th { 5 } else { 4 }, "recipient_list_length": maxlen, "keys": keys.iter().map(|k| format!("{}:{:?}", k.name, k.sk.encapsulation_scheme())).collect::<Vec<_>>()}});
     let _ = M::Known(0);
     finish(ctx, acc, "exploration", cov, vec!["ML-KEM keys cannot be seeded; verdicts do not depend on key values".into(), "'any other private key' = the never-listed keys of the finite key set".into()])
 }
